@@ -310,6 +310,22 @@ impl HotTier {
         existed
     }
 
+    /// Remove the mirror entry of `doc_id` only if it still carries `coherence`.
+    ///
+    /// Used by the write path to take back a mirror entry whose canonical record was
+    /// deleted or replaced between the cold-tier write and the mirror insert.
+    pub fn delete_if_coherence(&self, doc_id: u64, coherence: VectorCoherenceToken) -> bool {
+        let mut docs = self.documents.write();
+        if docs.get(&doc_id).map(|doc| doc.coherence) != Some(coherence) {
+            return false;
+        }
+        docs.remove(&doc_id);
+
+        let mut stats = self.stats.write();
+        stats.current_size = docs.len();
+        true
+    }
+
     /// Batch delete documents from hot tier
     ///
     /// # Parameters
